@@ -7,6 +7,7 @@ const (
 	cstCurrent  = "Current"
 
 	cstYieldFromRangeVar = "ʌ" // v۰
+	cstRedefineVar       = "ʇɯ" // tm۰
 
 	cstPairKey = "Key"
 	cstPairVal = "Val"
